@@ -3,5 +3,5 @@
 SPECIFICATION Spec
 CONSTANTS MaxBytes = 72  MaxRun = 10  MaxLead = 3  MaxTrail = 9
   AllHashers <- HashersAll  ByteExt <- ExtQuick
-INVARIANT Separates Emit
+INVARIANT Separates
 CHECK_DEADLOCK FALSE
